@@ -7,29 +7,33 @@ namespace Bp
 
 def isCont (b : Nat) : Bool := 0x80 ≤ b && b ≤ 0xBF
 
-def utf8Valid : Bytes → Bool
-  | [] => true
-  | b0 :: rest =>
-    if b0 < 0x80 then utf8Valid rest
+/-- fuel-based (every step consumes at least one byte, so `bs.length + 1` suffices) so
+    that the definition reduces in the kernel -/
+def utf8ValidFuel : Nat → Bytes → Bool
+  | 0, _ => false
+  | _ + 1, [] => true
+  | fuel + 1, b0 :: rest =>
+    if b0 < 0x80 then utf8ValidFuel fuel rest
     else if 0xC2 ≤ b0 && b0 ≤ 0xDF then
       match rest with
-      | b1 :: r => isCont b1 && utf8Valid r
+      | b1 :: r => isCont b1 && utf8ValidFuel fuel r
       | _ => false
     else if 0xE0 ≤ b0 && b0 ≤ 0xEF then
       match rest with
       | b1 :: b2 :: r =>
         (if b0 == 0xE0 then 0xA0 ≤ b1 && b1 ≤ 0xBF
          else if b0 == 0xED then 0x80 ≤ b1 && b1 ≤ 0x9F
-         else isCont b1) && isCont b2 && utf8Valid r
+         else isCont b1) && isCont b2 && utf8ValidFuel fuel r
       | _ => false
     else if 0xF0 ≤ b0 && b0 ≤ 0xF4 then
       match rest with
       | b1 :: b2 :: b3 :: r =>
         (if b0 == 0xF0 then 0x90 ≤ b1 && b1 ≤ 0xBF
          else if b0 == 0xF4 then 0x80 ≤ b1 && b1 ≤ 0x8F
-         else isCont b1) && isCont b2 && isCont b3 && utf8Valid r
+         else isCont b1) && isCont b2 && isCont b3 && utf8ValidFuel fuel r
       | _ => false
     else false
-termination_by bs => bs.length
+
+def utf8Valid (bs : Bytes) : Bool := utf8ValidFuel (bs.length + 1) bs
 
 end Bp
